@@ -130,6 +130,8 @@ class ReturnChecker:
         resume = {'irq': s['pc'], 'fiq': s['pc'], 'svc': exp['lr'], 'und': exp['lr'], 'dabt': s['pc']}.get(kind)
         if kind in ('svc', 'und') and resume is not None:
             resume &= ~1
+        if kind == 'und' and self.meta['returns'].get('und') == 'patch_retry':
+            resume = (resume - 2) & 0xFFFFFFFF          # the patched 16-bit instruction is retried
         in_it = bool((s['cpsr'] >> 5) & 1 and EM.cpsr_it(s['cpsr']) & 0xF)
         self.stack.append((kind, exp['spsr'], resume, exp['mode'], in_it))
 
